@@ -22,7 +22,7 @@ class State:
         to map host address to host row in the network tensor)
     """
 
-    def __init__(self, network_tensor, host_num_map):
+    def __init__(self, network_tensor, host_num_map, host_cls=HostVector):
         """
         Parameters
         ----------
@@ -34,21 +34,23 @@ class State:
         """
         self.tensor = network_tensor
         self.host_num_map = host_num_map
+        self.host_cls = host_cls
 
     @classmethod
     def tensorize(cls, network):
         h0 = network.hosts[(1, 0)]
         h0_vector = HostVector.vectorize(h0, network.address_space_bounds)
+        host_cls = HostVector.for_scenario()
         tensor = np.zeros(
             (len(network.hosts), h0_vector.state_size),
             dtype=np.float32
         )
         for host_addr, host in network.hosts.items():
             host_num = network.host_num_map[host_addr]
-            HostVector.vectorize(
+            host_cls.vectorize(
                 host, network.address_space_bounds, tensor[host_num]
             )
-        return cls(tensor, network.host_num_map)
+        return cls(tensor, network.host_num_map, host_cls)
 
     @classmethod
     def generate_initial_state(cls, network):
@@ -76,10 +78,11 @@ class State:
         return network.reset(state)
 
     @classmethod
-    def from_numpy(cls, s_array, state_shape, host_num_map):
+    def from_numpy(cls, s_array, state_shape, host_num_map,
+                   host_cls=HostVector):
         if s_array.shape != state_shape:
             s_array = s_array.reshape(state_shape)
-        return State(s_array, host_num_map)
+        return State(s_array, host_num_map, host_cls)
 
     @classmethod
     def reset(cls):
@@ -95,7 +98,7 @@ class State:
 
     def copy(self):
         new_tensor = np.copy(self.tensor)
-        return State(new_tensor, self.host_num_map)
+        return State(new_tensor, self.host_num_map, self.host_cls)
 
     def get_initial_observation(self, fully_obs):
         """Get the initial observation of network.
@@ -105,7 +108,7 @@ class State:
         Observation
             an observation object
         """
-        obs = Observation(self.shape())
+        obs = Observation(self.shape(), self.host_cls)
         if fully_obs:
             obs.from_state(self)
             return obs
@@ -137,7 +140,7 @@ class State:
         Observation
             an observation object
         """
-        obs = Observation(self.shape())
+        obs = Observation(self.shape(), self.host_cls)
         obs.from_action_result(action_result)
         if fully_obs:
             obs.from_state(self)
@@ -217,14 +220,14 @@ class State:
 
     def get_host(self, host_addr):
         host_idx = self.host_num_map[host_addr]
-        return HostVector(self.tensor[host_idx])
+        return self.host_cls(self.tensor[host_idx])
 
     def get_host_idx(self, host_addr):
         return self.host_num_map[host_addr]
 
     def get_host_and_idx(self, host_addr):
         host_idx = self.host_num_map[host_addr]
-        return host_idx, HostVector(self.tensor[host_idx])
+        return host_idx, self.host_cls(self.tensor[host_idx])
 
     def host_reachable(self, host_addr):
         return self.get_host(host_addr).reachable
